@@ -78,8 +78,9 @@ InterpMixin.as_goal = as_goal
 # ------------------------------------------------------------------------------------------
 #  contracts applied at call sites
 # ------------------------------------------------------------------------------------------
-def apply_contract(ctx, c, fn, args, kwargs):
+def apply_contract(ctx, cs, fn, args, kwargs):
     """Caller side: assert requires, havoc the frame, assume ensures (never the callee body)."""
+    c = cs[0]
     target = c.target_obj
     if isinstance(target, type):
         init = ctx.class_lookup(target, "__init__")
@@ -92,10 +93,24 @@ def apply_contract(ctx, c, fn, args, kwargs):
         node = ctx.eng.src.node_for(fn)[0]
         bound = ctx.bind_args(node.args, fn, args, kwargs)
     ns = dict(bound)
+    if len(cs) > 1 or cs[0].accepts is not None:
+        sel = [x for x in cs if x.accepts is None or x.accepts(ctx, ns)]
+        if not sel:
+            raise Unsupported("no contract of %s accepts these argument types" % c.target)
+        c = sel[0]
     caller = ctx.proof_label
     ctx.used_contracts.add(c.label)
+    ghosts = [p for p in c.args if p.startswith("_")]
     if c.requires is not None:
-        v = ctx.call_spec(c.requires, ns)
+        nsr = dict(ns)
+        for g in ghosts:      # universally quantified: the caller proves requires for a fresh value
+            nsr[g] = c.args[g].make(ctx, ctx.fresh_name("forall" + g))
+        h = (ctx.cur_contract.pre_hints or {}).get(fn.__name__) if ctx.cur_contract is not None else None
+        if h is not None:
+            nsh = dict(ctx.entry_ns)
+            nsh.update(nsr)
+            ctx.call_spec(h, nsh)
+        v = ctx.call_spec(c.requires, nsr)
         ctx.prove("%s/pre@%s" % (caller, c.short), ctx.as_goal(v))
     old = types.SimpleNamespace(**{k: ctx.clone(v) for k, v in ns.items()})
     # exceptional outcomes (over-approximated: any declared exception may occur when allowed)
@@ -128,12 +143,42 @@ def apply_contract(ctx, c, fn, args, kwargs):
     if isinstance(target, type) and c.returns is None:
         raise Unsupported("constructor contract needs a returns shape")
     result = None
-    if c.returns is not None:
+    if c.pure is not None:
+        result = pure_result(ctx, c, ns)
+    elif c.returns is not None:
         result = c.returns.make(ctx, ctx.fresh_name("ret@%s" % c.short))
     ns3 = dict(ns, result=result, old=old)
+    ctx.applied[fn] = (c, ns3)
     for nm, f in c.ensures.items():
+        params = inspect.signature(f).parameters
+        if any(g in params for g in ghosts):
+            continue          # ghost-quantified clause: available through instantiate_post(...)
         ctx.assume(ctx.as_goal(ctx.call_spec(f, ns3)))
     return result
+
+
+def pure_result(ctx, c, ns):
+    """Result of a contract declared pure: an uninterpreted function of the (SMT-sorted)
+    arguments, so two applications to equal arguments denote the same value."""
+    from .values import str_term, bytes_term, is_strlike, is_byteslike, is_intlike, STR, BSEQ
+    terms = []
+    sig = []
+    for p in c.args:
+        if p.startswith("_"):
+            continue
+        v = ns[p]
+        if is_strlike(v):
+            terms.append(str_term(v)); sig.append("str")
+        elif is_byteslike(v):
+            terms.append(bytes_term(v)); sig.append("bytes")
+        elif is_intlike(v):
+            terms.append(int_term(v)); sig.append("int")
+        else:
+            raise Unsupported("pure contract %s applied to a non-scalar argument" % c.label)
+    rs = {"str": STR, "bytes": BSEQ, "int": z3.IntSort()}[c.pure]
+    f = z3.Function("pure!%s!%s" % (c.target, "_".join(sig)), *([t.sort() for t in terms] + [rs]))
+    r = f(*terms)
+    return {"str": SStr, "int": SInt}.get(c.pure, lambda t: SBytes(term=t))(r)
 
 
 InterpMixin.apply_contract = apply_contract
@@ -175,6 +220,8 @@ def exec_loop_with_invariant(ctx, s, fr, spec, kind, iterable=None):
         havoc()
         ctx.assume(ctx.as_goal(ctx.call_spec(spec.inv, ns_now())))
         if ctx.truth(ctx.eval(s.test, fr)):
+            if spec.hint is not None:
+                ctx.call_spec(spec.hint, ns_now())
             v0 = ctx.call_spec(spec.variant, ns_now()) if spec.variant is not None else None
             try:
                 ctx.exec_block(s.body, fr)
@@ -278,7 +325,7 @@ def run_contract(eng, c, clause_filter=None):
 
     def thunk(ctx):
         ctx.proof_label = label
-        ctx.cur_fn = target if not isinstance(target, type) else None
+        ctx.cur_fn = target if (not isinstance(target, type) and c.call is None) else None
         ctx.cur_contract = c
         # state (class / module attributes)
         ns = {}
@@ -294,6 +341,9 @@ def run_contract(eng, c, clause_filter=None):
             ns[p] = shape.make(ctx, p)
         if c.setup is not None:
             c.setup(ctx, ns)
+        ctx.entry_ns = dict(ns)
+        for g in [p for p in c.args if p.startswith("_")]:
+            ctx.ghost[g] = ns[g]
         if c.requires is not None:
             ctx.assume(ctx.as_goal(ctx.call_spec(c.requires, ns)))
         for fid, region in c.regions.items():
@@ -327,10 +377,19 @@ def run_contract(eng, c, clause_filter=None):
             for nm, f in c.ensures.items():
                 if clause_filter and nm not in clause_filter:
                     continue
-                ctx.prove("%s/post#%s" % (label, nm), ctx.as_goal(ctx.call_spec(f, ns2)),
-                          info={"kind": "post"}, assume_after=False)
+                try:
+                    g = ctx.as_goal(ctx.call_spec(f, ns2))
+                except PyRaise as r:
+                    ctx.note_oblig("%s/post#%s" % (label, nm), "unknown",
+                                   {"note": "clause not evaluable on this result: %r" % (r.exc,)})
+                    continue
+                ctx.prove("%s/post#%s" % (label, nm), g, info={"kind": "post"}, assume_after=False)
             for nm, f in c.controls.items():
-                ob = ctx.prove("%s/control#%s" % (label, nm), ctx.as_goal(ctx.call_spec(f, ns2)),
+                try:
+                    g = ctx.as_goal(ctx.call_spec(f, ns2))
+                except PyRaise as r:
+                    continue
+                ob = ctx.prove("%s/control#%s" % (label, nm), g,
                                info={"kind": "control"}, assume_after=False)
                 ob.info["control"] = True
         elif outcome[0] == "raise":
@@ -357,10 +416,8 @@ def run_contract(eng, c, clause_filter=None):
         res.havoc_notes |= getattr(ctx, "havoc_notes", set())
         if ctx.status == "unsupported":
             res.add("%s/exec" % label, "unknown", note="out of subset: %s" % ctx.note)
-            continue
         if ctx.status == "escaped":
             res.add("%s/exec" % label, "unknown", note="spec/engine raised: %s" % ctx.note)
-            continue
         if ctx.outcome is not None and ctx.outcome[0] == "ret":
             nret += 1
         for ob in ctx.obligs:
